@@ -482,6 +482,25 @@ pub fn run(name: &str) -> Option<bool> {
             let p = build_options(&o);
             crate::outcome::run(&p, &bytes(&["1", "--tag", "2"])).is_value()
         }
+        // C18: `construct!(alpha, env_only).optional()` given `--alpha 7` with the variable unset
+        // ended with "--alpha is not expected in this context"
+        "half_given_group_env_only_member_blames_given_item" => {
+            let var = "BPAF_VERIF_WITNESS_F30";
+            std::env::remove_var(var);
+            let mut names = Names::default();
+            names.envs = vec![var.to_string()];
+            let g = Spec::Seq(vec![arg(1, Names::long("alpha"), Ty::U32), arg(2, names, Ty::U32)]);
+            let o = OptSpec::plain(Spec::Seq(vec![Spec::wrap(
+                W::Optional { catch: false },
+                3,
+                g,
+            )]));
+            let p = build_options(&o);
+            match crate::outcome::run(&p, &bytes(&["--alpha", "7"])) {
+                Outcome::Stderr { text } => !text.contains(var),
+                _ => true,
+            }
+        }
         // C15: the static bash stub (`--bpaf-complete-style-bash`) rebuilds the command line as a
         // string and `eval`s it: `my-app $(cmd)<TAB>` runs `cmd`
         "bash_stub_evals_typed_words" => {
